@@ -2309,6 +2309,7 @@ func (pc *PeerConnection) AddTrack(track TrackLocal) (*RTPSender, error) {
 	if pc.isClosed.Load() {
 		return nil, &rtcerr.InvalidStateError{Err: ErrConnectionClosed}
 	}
+	verifhook.Point("pc.call.afterClosedCheck")
 
 	pc.mu.Lock()
 	defer pc.mu.Unlock()
@@ -2347,6 +2348,7 @@ func (pc *PeerConnection) RemoveTrack(sender *RTPSender) (err error) {
 	if pc.isClosed.Load() {
 		return &rtcerr.InvalidStateError{Err: ErrConnectionClosed}
 	}
+	verifhook.Point("pc.call.afterClosedCheck")
 
 	var transceiver *RTPTransceiver
 	pc.mu.Lock()
@@ -2415,6 +2417,7 @@ func (pc *PeerConnection) AddTransceiverFromKind(
 	if pc.isClosed.Load() {
 		return nil, &rtcerr.InvalidStateError{Err: ErrConnectionClosed}
 	}
+	verifhook.Point("pc.call.afterClosedCheck")
 
 	direction := RTPTransceiverDirectionSendrecv
 	if len(init) > 1 {
@@ -2460,6 +2463,7 @@ func (pc *PeerConnection) AddTransceiverFromTrack(
 	if pc.isClosed.Load() {
 		return nil, &rtcerr.InvalidStateError{Err: ErrConnectionClosed}
 	}
+	verifhook.Point("pc.call.afterClosedCheck")
 
 	direction := RTPTransceiverDirectionSendrecv
 	if len(init) > 1 {
@@ -2488,6 +2492,7 @@ func (pc *PeerConnection) CreateDataChannel(label string, options *DataChannelIn
 	if pc.isClosed.Load() {
 		return nil, &rtcerr.InvalidStateError{Err: ErrConnectionClosed}
 	}
+	verifhook.Point("pc.call.afterClosedCheck")
 
 	params := &DataChannelParameters{
 		Label:   label,
